@@ -91,7 +91,7 @@ func backupTrace(en *Env, cfg h.Cfg, merges bool) int {
 	nkeys := 3 + r.Intn(5)
 	dir := en.FreshDir()
 	defer en.Drop(dir)
-	u := h.SimpleKeys(nkeys, 5+r.Intn(10))
+	u := h.PickKeys(r, nkeys, 5+r.Intn(10))
 	vs := h.NewValues()
 	e := h.NewEng(dir, en.Work+"/scratch", cfg, u, vs, en.T)
 	en.T.Emit(h.Ev{"ev": "reset", "n": nkeys, "seed": en.Seed, "prof": "backup"})
